@@ -140,6 +140,68 @@ func scaleSizes(shape string) [2]int {
 	return [2]int{50, 200}
 }
 
+// depthShapes: one construct nested (or chained) 100 000 levels deep - a 0.2-2.7 MB document.
+// Every recursion whose depth follows the nesting of the input exhausts the goroutine stack at
+// some size; the workers run with a 64 MB stack limit (the runtime's default of 1 GB needs a
+// 16 times larger document and 1-2 GB of memory to show the same thing).
+var depthShapes = []string{"array-nesting", "object-nesting", "array-object-nesting", "macro-chain", "paren-nesting", "regex-nesting", "enum-nesting", "type-array-nesting", "annotation-nesting", "or-rule-nesting", "include-chain", "tag-chain"}
+
+func depthProject(shape string, n int) *Project {
+	p := &Project{Kind: "depth:" + shape, Root: "root.jst"}
+	var sb strings.Builder
+	sb.WriteString("JSIGHT 0.3\n")
+	rep := strings.Repeat
+	switch shape {
+	case "array-nesting":
+		sb.WriteString("GET /p\n  200\n    " + rep("[", n) + "1" + rep("]", n) + "\n")
+	case "object-nesting":
+		sb.WriteString("GET /p\n  200\n    " + rep("{\"a\":", n) + "1" + rep("}", n) + "\n")
+	case "array-object-nesting":
+		sb.WriteString("GET /p\n  200\n    " + rep("[{\"a\":", n/2) + "1" + rep("}]", n/2) + "\n")
+	case "macro-chain":
+		sb.WriteString("MACRO @m0\n(\n  200 any\n)\n")
+		for i := 1; i < n; i++ {
+			fmt.Fprintf(&sb, "MACRO @m%d\n(\n  PASTE @m%d\n)\n", i, i-1)
+		}
+		fmt.Fprintf(&sb, "GET /p\n  PASTE @m%d\n", n-1)
+	case "paren-nesting":
+		sb.WriteString("GET /p\n  200 any\n" + rep("(\n", n) + rep(")\n", n))
+	case "regex-nesting":
+		sb.WriteString("TYPE @r regex\n  /" + rep("(", n) + "a" + rep(")", n) + "/\n")
+	case "enum-nesting":
+		sb.WriteString("ENUM @e\n  " + rep("[", n) + "1" + rep("]", n) + "\n")
+	case "type-array-nesting":
+		sb.WriteString("TYPE @t\n  " + rep("[", n) + "1" + rep("]", n) + "\nGET /p\n  200 @t\n")
+	case "annotation-nesting":
+		sb.WriteString("GET /p\n  200\n    {\"a\": 1 // " + rep("{a: ", n) + "1" + rep("}", n) + "\n    }\n")
+	case "or-rule-nesting":
+		sb.WriteString("GET /p\n  200\n    1 // {or: " + rep("[{or: ", n/50) + "[{type: \"integer\"}, {type: \"string\"}]" + rep("}, {type: \"string\"}]", n/50) + "}\n")
+	case "include-chain":
+		// 2 000 files, each including the next one
+		k := n / 50
+		sb.WriteString("INCLUDE c0.jst\n")
+		for i := 0; i < k-1; i++ {
+			p.Files = append(p.Files, GenFile{Path: fmt.Sprintf("c%d.jst", i), Data: []byte(fmt.Sprintf("INCLUDE c%d.jst\n", i+1))})
+		}
+		p.Files = append(p.Files, GenFile{Path: fmt.Sprintf("c%d.jst", k-1), Data: []byte("TAG @end\n")})
+	case "tag-chain":
+		// user types referring to the previous one are K4 (cubic); tags are flat - a long run of
+		// methods each naming all tags so far would be quadratic by construction. Here: one method with n tags.
+		for i := 0; i < n/10; i++ {
+			fmt.Fprintf(&sb, "TAG @t%d\n", i)
+		}
+		sb.WriteString("GET /p\n  Tags")
+		for i := 0; i < n/10; i++ {
+			fmt.Fprintf(&sb, " @t%d", i)
+		}
+		sb.WriteString("\n  200 any\n")
+	default:
+		panic("unknown depth shape " + shape)
+	}
+	p.Files = append([]GenFile{{Path: "root.jst", Data: []byte(sb.String())}}, p.Files...)
+	return p
+}
+
 func scaletestMain() {
 	canonicalEnv()
 	for _, sh := range scaleShapes {
